@@ -139,6 +139,43 @@ def finish_points(g, pts, exact, coords):
     return pts, exact
 
 
+class RefCache:
+    """Reference of one case: every cap evaluated once in long double, then combined per (use-mask, ncaps).
+
+    ``polys`` are the distinct polygon *objects*; ``order`` lists, for each window position, the object it holds
+    (so that one object may sit at several positions and mask changes follow the object).
+    """
+
+    def __init__(self, polys, pts_ld, band, ctol, exact=(), order=None):
+        self.npts = pts_ld.shape[0]
+        self.order = list(range(len(polys))) if order is None else list(order)
+        self.ncs = [len(cm) for _, cm, _ in polys]
+        self.tables = []
+        for pi, (x, cm, use) in enumerate(polys):
+            ex = [(j, k) for j, p, k in exact if p == pi]          # exact entries name the object, not the position
+            self.tables.append(R.cap_table(x, cm, pts_ld, band, ctol, ex))
+
+    def polygon(self, pi, use, ncp):
+        return R.combine_caps(self.tables[pi], use, ncp, self.npts)
+
+    def window(self, masks, ncp, allcaps=False):
+        sts, nears = [], []
+        for pi in self.order:
+            u = (1 << self.ncs[pi]) - 1 if allcaps else masks[pi]
+            st, near = self.polygon(pi, u, ncp)
+            sts.append(st)
+            nears.append(near)
+        first, alt = R.window_allowed(sts)
+        return sts, nears, first, alt
+
+
+def other_ncaps(g, ncp, n, k):
+    """k values of the ncaps argument different from ncp, in random order (0 = all, 1, n-1, n, n+2, ...)."""
+    pool = sorted({0, 1, 2, max(n - 1, 0), n, n + 2} - {ncp})
+    g.shuffle(pool)
+    return [int(v) for v in pool[:k]]
+
+
 # ---------------------------------------------------------------------------
 class C12(Check):
     ID = 'C12'
@@ -151,7 +188,13 @@ class C12(Check):
             'optional, plain 3D one-cap layout with and without TDIM; raw and converted), window_blist+window_bcaps '
             '(shuffled ICAP order with junk gaps) through window_read; the repository\'s own t/polygon*.{fits,ply}; '
             'set_use_caps with permutations, subsets, singletons, repeats, empty lists, list/tuple/ndarray, add, '
-            'tol, allow_doubles, allow_neg_doubles on caps sharing a centre with equal/opposite/unrelated cm.  '
+            'tol, allow_doubles, allow_neg_doubles on caps sharing a centre with equal/opposite/unrelated cm; '
+            'HISTORIES on the same objects: every polygon / PolygonList / list read from a file is asked again with '
+            'other ncaps values (0, 1, n-1, n, n+2) in random order, a member of a list through is_in_polygon between '
+            'two window lookups, read-only accessors (cmminf, copy) in between, and class `sequence` runs 5-12 random '
+            'operations (is_in_polygon, is_in_window, set_use_caps, use_caps assignment, copy, Cartesian/RA-Dec) on '
+            '1-4 shared objects (one object possibly at two list positions), each answer held to the reference for '
+            'the then-current mask.  '
             'Non-trivial: a membership case whose reference evaluated >= 2 used caps incl. a negative one in some '
             'polygon and decided >= 1 point closer than 1e-3 (in 1-x.p) to a cap boundary; a set_use_caps case whose '
             'index list is not a permutation of range(ncaps) or that removes/keeps a same-centre cap.  Distinct by '
@@ -177,7 +220,9 @@ class C12(Check):
                          'arm_mem', 'arm_ply', 'arm_fits_raw', 'arm_fits_conv', 'arm_balkans', 'fits_plain3d_raw',
                          'usecaps_nonperm', 'usecaps_dup_removed', 'usecaps_twin_removed', 'usecaps_twin_kept',
                          'usecaps_unrelated_same_centre_kept', 'usecaps_add', 'usecaps_allow_doubles',
-                         'usecaps_near_centre_kept')
+                         'usecaps_near_centre_kept',
+                         'same_object_requeries', 'requery_reference_answer_changed', 'requery_after_mask_change',
+                         'requery_window_after_polygon_on_member', 'requery_file_objects')
     REQUIRED_REACH = {'mangle.is_in_polygon': 0.9, 'mangle.is_in_window': 0.9, 'mangle.set_use_caps': 0.9,
                       'mangle.cap_distance': 0.7, 'mangle.read_mangle_polygons': 0.8}
     MIN_NONTRIVIAL = 20
@@ -218,6 +263,7 @@ class C12(Check):
             'files_onecap': 80 if q else 1500,
             'repo_fixtures': 16 if q else 160,
             'use_caps': 3000 if q else 80000,
+            'sequence': 400 if q else 10000,
         }
 
     # ------------------------------------------------------------------ gen
@@ -242,6 +288,8 @@ class C12(Check):
                     'ncaps': int([0, 0, 2, 1][(i // 8) % 4])}
         if cls == 'use_caps':
             return self._gen_use_caps(g)
+        if cls == 'sequence':
+            return self._gen_sequence(g)
         raise KeyError(cls)
 
     def _gen_polygon_case(self, g, big):
@@ -255,7 +303,7 @@ class C12(Check):
         coords = 'radec' if g.uniform() < 0.35 else 'xyz'
         pts, exact = finish_points(g, pts, exact, coords)
         return {'kind': 'polygon', 'f32': f32, 'x': xs, 'cm': cms, 'use': use, 'ncaps': ncp, 'coords': coords,
-                'pts': pts, 'exact': [[j, k] for j, _, k in exact]}
+                'pts': pts, 'exact': [[j, k] for j, _, k in exact], 'requery': other_ncaps(g, ncp, nc, 3)}
 
     def _gen_centres(self, g):
         """one or two caps with hostile cm; the points are cap centres and antipodes (bit-exact)."""
@@ -341,7 +389,7 @@ class C12(Check):
         coords = 'radec' if g.uniform() < 0.35 else 'xyz'
         pts, exact = finish_points(g, pts, exact, coords)
         case = {'kind': 'window', 'f32': f32, 'polys': [{'x': x, 'cm': c, 'use': u} for x, c, u in polys],
-                'ncaps': ncp, 'coords': coords, 'pts': pts, 'exact': exact}
+                'ncaps': ncp, 'coords': coords, 'pts': pts, 'exact': exact, 'requery': other_ncaps(g, ncp, maxc, 2)}
         if files:
             ncaps_tot = sum(len(c) for _, c, _ in polys)
             order = list(range(npoly))
@@ -426,6 +474,46 @@ class C12(Check):
                 'allow_doubles': bool(g.uniform() < 0.2), 'allow_neg_doubles': bool(g.uniform() < 0.3),
                 'pts': [[float(c) for c in p] for p in unit(g, 12)]}
 
+    def _gen_sequence(self, g):
+        """A history of queries and use-mask changes on the SAME polygon objects / the same PolygonList."""
+        f32 = bool(g.uniform() < 0.15)
+        nobj = int(g.integers(1, 5))
+        maxc = int(g.choice([2, 3, 4, 5, 7]))
+        polys, targets = [], []
+        for p in range(nobj):
+            t = unit(g) if not targets or g.uniform() < 0.5 else \
+                rotate_from(g, targets[int(g.integers(len(targets)))], float(10 ** g.uniform(-3, -0.5)))
+            nc = int(g.integers(2 if g.uniform() < 0.8 else 1, maxc + 1))
+            xs, cms, use = gen_polygon(g, nc, 0, t, f32, str(g.choice(['all', 'all', 'random'])))
+            polys.append((xs, cms, use))
+            targets.append(t)
+        order = list(range(nobj))
+        if g.uniform() < 0.2:
+            order.insert(int(g.integers(0, len(order) + 1)), int(g.integers(nobj)))    # one object at two positions
+        pts, exact = gen_points(g, polys, targets, 20, f32)
+        ops = []
+        for _ in range(int(g.integers(5, 13))):
+            o = int(g.integers(nobj))
+            nc = len(polys[o][1])
+            coords = 'radec' if g.uniform() < 0.25 else 'xyz'
+            r = g.uniform()
+            if r < 0.4:
+                ops.append(['poly', o, int(g.choice([0, 0, 1, 1, 2, max(nc - 1, 0), nc, nc + 2])), coords])
+            elif r < 0.65:
+                ops.append(['window', int(g.choice([0, 0, 1, 2, maxc, maxc + 2])), coords])
+            elif r < 0.78:
+                m = int(g.integers(0, nc + 1))
+                ops.append(['set', o, [int(v) for v in g.permutation(nc)[:m]], bool(g.uniform() < 0.3),
+                            bool(g.uniform() < 0.5), bool(g.uniform() < 0.3)])
+            elif r < 0.86:
+                ops.append(['assign', o, int(g.integers(0, 1 << nc))])
+            elif r < 0.93:
+                ops.append(['touch', o, str(g.choice(['cmminf', 'copy', 'ncaps']))])
+            else:
+                ops.append(['copyq', o, int(g.choice([0, 1, nc])), coords])
+        return {'kind': 'sequence', 'f32': f32, 'polys': [{'x': x, 'cm': c, 'use': u} for x, c, u in polys],
+                'order': order, 'pts': pts, 'exact': exact, 'ops': ops}
+
     # ------------------------------------------------------------------ helpers
     def _call(self, out, arm, f, *a, **k):
         """Call pydl; an exception is an observation (clause 'exception') but the other arms still run."""
@@ -503,6 +591,50 @@ class C12(Check):
             out.checks += 1
         return not bad
 
+    def _changed(self, out, prev, cur):
+        """evidence: the reference answer of this query differs from the previous one on the same object."""
+        if prev is not None and bool(((prev != cur) & (prev != UND) & (cur != UND)).any()):
+            out.count('requery_reference_answer_changed')
+            return True
+        return False
+
+    def _requery_polygon(self, out, arm, obj, pts, refpoly, values, case_pts, prev=None, touch=False):
+        """Ask the SAME polygon object again with other ncaps values; every answer is held to the reference."""
+        M = self.M
+        for i, v in enumerate(values):
+            if touch and i % 2 == 1:
+                try:                      # read-only accessors between two queries must not alter later answers
+                    obj.cmminf()
+                    obj.copy()
+                except Exception:
+                    out.count('touch_raised')
+            st, _ = refpoly(v)
+            ok, got = self._call(out, arm + ':requery', M.is_in_polygon, obj, pts, ncaps=v)
+            if ok:
+                out.count('same_object_requeries')
+                self._cmp_bool(out, 'polygon:%s:requery' % arm, got, st, case_pts, ncaps=v,
+                               history='same object queried before with other ncaps', sequence=list(values[:i + 1]))
+            self._changed(out, prev, st)
+            prev = st
+        return prev
+
+    def _requery_window(self, out, arm, obj, pts, ref, masks, allcaps, values, case_pts, prev=None, counter=None):
+        """Ask the SAME polygon list again with other ncaps values."""
+        M = self.M
+        for i, v in enumerate(values):
+            _, _, first, alt = ref.window(masks, v, allcaps=allcaps)
+            ok, res = self._call(out, arm + ':requery', M.is_in_window, obj, pts, ncaps=v)
+            if ok:
+                out.count('same_object_requeries')
+                if counter:
+                    out.count(counter)
+                self._cmp_window(out, 'window:%s:requery' % arm, res, first, alt, case_pts, ncaps=v,
+                                 history='same list queried before with other ncaps', sequence=list(values[:i + 1]))
+            if prev is not None and bool((prev != first).any()):
+                out.count('requery_reference_answer_changed')
+            prev = first
+        return prev
+
     def _note_points(self, out, cms_used, st, near):
         dec = st != UND
         nb = int((dec & (near < 1e-3)).sum())
@@ -520,6 +652,8 @@ class C12(Check):
             return self._run_fixture(case, out)
         if k == 'use_caps':
             return self._run_use_caps(case, out)
+        if k == 'sequence':
+            return self._run_sequence(case, out)
         raise KeyError(k)
 
     # .............................................................. polygon
@@ -588,23 +722,19 @@ class C12(Check):
                            'RA/Dec given as %s answered differently from the same positions given as float64 (%d of %d points)'
                            % (dt, int((np.asarray(got_f) != np.asarray(got_i)).sum()), len(ip)))
                 out.count('radec_integer_dtype_cases')
+        # --- the same object asked again with other ncaps values (state must not stick to the object)
+        table = R.cap_table(x, cm, pts_ld, band, ctol, exact)
+        values = case.get('requery')
+        if values is None:
+            values = [v for v in (1, 0, n, n + 2) if v != ncp][:3]
+        self._requery_polygon(out, 'is_in_polygon', poly, pts, lambda v: R.combine_caps(table, use, v, len(pts)),
+                              values, case['pts'], prev=st, touch=True)
         nb = self._note_points(out, used, st, near)
         out.nontrivial = len(used) >= 2 and neg >= 1 and nb >= 1
         out.info.update(n_caps=n, used=used, inside=int((st == IN).sum()), outside=int((st == OUT).sum()),
                         undecided=int((st == UND).sum()))
 
     # .............................................................. window (+ file formats)
-    def _ref_window(self, polys, ncp, pts_ld, band, ctol, exact, allcaps):
-        sts, nears = [], []
-        for pi, (x, cm, use) in enumerate(polys):
-            ex = [(j, k) for j, p, k in exact if p == pi]
-            u = (1 << len(cm)) - 1 if allcaps else use
-            st, near = R.polygon_status(x, cm, u, ncp, pts_ld, band, ctol, ex)
-            sts.append(st)
-            nears.append(near)
-        first, alt = R.window_allowed(sts)
-        return sts, nears, first, alt
-
     def _run_window(self, case, out):
         M = self.M
         f32 = case['f32']
@@ -618,7 +748,12 @@ class C12(Check):
             out.count('radec_cases')
         if f32:
             out.count('f32_cases')
-        sts, nears, first, alt = self._ref_window(polys, ncp, pts_ld, band, ctol, exact, allcaps=False)
+        ref = RefCache(polys, pts_ld, band, ctol, exact)
+        masks = [u for _, _, u in polys]
+        sts, nears, first, alt = ref.window(masks, ncp)
+        values = case.get('requery')
+        if values is None:
+            values = [v for v in (1, 0, max(ref.ncs)) if v != ncp][:2]
         # evidence counters from the reference
         S = np.array(sts)
         nin = (S == IN).sum(axis=0)
@@ -650,20 +785,28 @@ class C12(Check):
         if ok:
             out.count('arm_mem')
             self._cmp_window(out, 'window:mem', res, first, alt, case['pts'], ncaps=ncp)
+            # the same list again with other ncaps; then one member through is_in_polygon, then the list once more
+            prev = self._requery_window(out, 'mem', pl, pts, ref, masks, False, values, case['pts'], prev=first)
+            i0 = len(polys) // 2
+            self._requery_polygon(out, 'mem_member', pl[i0], pts, lambda v: ref.polygon(i0, masks[i0], v),
+                                  [values[-1], ncp] if values else [ncp], case['pts'])
+            self._requery_window(out, 'mem', pl, pts, ref, masks, False, [values[0] if values else ncp], case['pts'],
+                                 prev=prev, counter='requery_window_after_polygon_on_member')
         out.info.update(npoly=len(polys), first_hist={str(v): int((first == v).sum()) for v in np.unique(first)},
                         undecided=int((~decided).sum()))
         if case['kind'] != 'files':
             return
         # --- file arms
         fmt = case['fmt']
-        _, _, first_a, alt_a = self._ref_window(polys, ncp, pts_ld, band, ctol, exact, allcaps=True)
+        _, _, first_a, alt_a = ref.window(masks, ncp, allcaps=True)
+        rq = (ref, masks, values)
         self._n += 1
         d = os.path.join(self.workdir, 'c12_%d_%d' % (os.getpid(), self._n))
         os.makedirs(d)
         try:
-            self._arm_fits(case, out, d, polys, pts, ncp, first, alt)
-            self._arm_ply(case, out, d, polys, pts, ncp, first_a, alt_a)
-            self._arm_balkans(case, out, d, polys, pts, ncp, first_a, alt_a)
+            self._arm_fits(case, out, d, polys, pts, ncp, first, alt, rq)
+            self._arm_ply(case, out, d, polys, pts, ncp, first_a, alt_a, rq)
+            self._arm_balkans(case, out, d, polys, pts, ncp, first_a, alt_a, rq)
         finally:
             shutil.rmtree(d, ignore_errors=True)
 
@@ -706,7 +849,7 @@ class C12(Check):
                 a['IFIELD'][i] = int(L.integers(0, 100000))
         return a
 
-    def _arm_fits(self, case, out, d, polys, pts, ncp, first, alt):
+    def _arm_fits(self, case, out, d, polys, pts, ncp, first, alt, rq):
         M, fits = self.M, self.fits
         layouts = ['tdim']
         if case['fmt']['plain3d']:
@@ -735,12 +878,13 @@ class C12(Check):
                     # a single polygon taken out of the table answers like the reference polygon
                     i0 = len(polys) - 1
                     okp, gp = self._call(out, arm + ':is_in_polygon', M.is_in_polygon, poly[i0], pts, ncaps=ncp)
+                    ref, masks, values = rq
                     if okp:
-                        band, ctol = self._bands(case['f32'])
-                        ex = [(j, k) for j, p, k in [tuple(e) for e in case.get('exact', [])] if p == i0]
-                        st, _ = R.polygon_status(polys[i0][0], polys[i0][1], polys[i0][2], ncp, R.to_ld_points(pts),
-                                                 band, ctol, ex)
+                        st, _ = ref.polygon(i0, masks[i0], ncp)
                         self._cmp_bool(out, 'polygon:' + arm, gp, st, case['pts'], polygon=i0)
+                    # the objects that were read, asked again with other ncaps
+                    self._requery_window(out, arm, poly, pts, ref, masks, False, values if conv else values[:1], case['pts'],
+                                         prev=first, counter='requery_file_objects')
 
     def _ply_text(self, case, polys):
         fmt = case['fmt']
@@ -764,7 +908,7 @@ class C12(Check):
                 lines.append(sep + sep.join(num(v) for v in x[k]) + sep + num(cm[k]))
         return '\n'.join(lines) + '\n'
 
-    def _arm_ply(self, case, out, d, polys, pts, ncp, first_a, alt_a):
+    def _arm_ply(self, case, out, d, polys, pts, ncp, first_a, alt_a, rq):
         M = self.M
         fn = os.path.join(d, 'poly.ply')
         with open(fn, 'w') as f:
@@ -778,8 +922,11 @@ class C12(Check):
         if ok:
             out.count('arm_ply')
             self._cmp_window(out, 'window:ply', res, first_a, alt_a, case['pts'], ncaps=ncp)
+            ref, masks, values = rq
+            self._requery_window(out, 'ply', poly, pts, ref, masks, True, values[-1:], case['pts'], prev=first_a,
+                                 counter='requery_file_objects')
 
-    def _arm_balkans(self, case, out, d, polys, pts, ncp, first_a, alt_a):
+    def _arm_balkans(self, case, out, d, polys, pts, ncp, first_a, alt_a, rq):
         M, W, Table = self.M, self.W, self.Table
         fmt = case['fmt']
         L = np.random.default_rng(fmt['seed'] + 2)
@@ -831,6 +978,9 @@ class C12(Check):
             out.count('arm_balkans')
             self._cmp_window(out, 'window:balkans', res, first_a, alt_a, case['pts'], ncaps=ncp,
                              icap=icap, ncaps_list=[len(c) for _, c, _ in polys])
+            ref, masks, values = rq
+            self._requery_window(out, 'balkans', bk, pts, ref, masks, True, values[:1], case['pts'], prev=first_a,
+                                 counter='requery_file_objects')
 
     # .............................................................. repository fixtures
     def _run_fixture(self, case, out):
@@ -870,8 +1020,10 @@ class C12(Check):
         ptsa = np.array(pts)
         if case['coords'] == 'radec':
             out.count('radec_cases')
-        sts, nears, first, alt = self._ref_window(polys, ncp, R.to_ld_points(ptsa), R.BAND_F64, R.CENTRE_TOL_F64,
-                                                  exact, allcaps=False)
+        ref = RefCache(polys, R.to_ld_points(ptsa), R.BAND_F64, R.CENTRE_TOL_F64, exact)
+        masks = [u for _, _, u in polys]
+        sts, nears, first, alt = ref.window(masks, ncp)
+        values = [v for v in (1, 0, 3) if v != ncp][:2]
         for st, near in zip(sts, nears):
             self._note_points(out, None, st, near)
         out.nontrivial = len(polys) > 1
@@ -888,6 +1040,8 @@ class C12(Check):
                 if ok:
                     out.count('arm_fits_conv' if conv else 'arm_fits_raw')
                     self._cmp_window(out, 'window:' + arm, res, first, alt, pts, file=case['file'])
+                    self._requery_window(out, arm, poly, ptsa, ref, masks, False, values, pts, prev=first,
+                                         counter='requery_file_objects')
         else:
             ok, poly = self._call(out, 'fixture_ply:read', M.read_mangle_polygons, fn)
             if ok:
@@ -895,6 +1049,108 @@ class C12(Check):
                 if ok:
                     out.count('arm_ply')
                     self._cmp_window(out, 'window:fixture_ply', res, first, alt, pts, file=case['file'])
+                    self._requery_window(out, 'fixture_ply', poly, ptsa, ref, masks, False, values, pts, prev=first,
+                                         counter='requery_file_objects')
+
+    # .............................................................. histories on the same objects
+    def _run_sequence(self, case, out):
+        M = self.M
+        f32 = case['f32']
+        band, ctol = self._bands(f32)
+        polys = [self._arrays(p['x'], p['cm'], f32) + (int(p['use']),) for p in case['polys']]
+        order = [int(o) for o in case['order']]
+        xyz = np.array(case['pts'], dtype=np.float64)
+        radec = to_radec(xyz)
+        exact = [tuple(e) for e in case.get('exact', [])]
+        refs = {'xyz': RefCache(polys, R.to_ld_points(xyz), band, ctol, exact, order=order),
+                'radec': RefCache(polys, R.to_ld_points(radec), band, ctol, (), order=order)}
+        pts = {'xyz': xyz, 'radec': radec}
+        shown = {'xyz': case['pts'], 'radec': radec.tolist()}
+        masks = [u for _, _, u in polys]
+        objs = [M.ManglePolygon(x=x.copy(), cm=cm.copy(), use_caps=use) for x, cm, use in polys]
+        pl = M.PolygonList([objs[o] for o in order])
+        if f32:
+            out.count('f32_cases')
+        last_poly = {}          # object -> reference status of the last query on it (per coords)
+        last_win = {}
+        mask_changed = set()
+        changed = 0
+        hist = []
+        for op in case['ops']:
+            kind = op[0]
+            hist.append(op)
+            if kind == 'poly':
+                _, o, v, c = op
+                st, _ = refs[c].polygon(o, masks[o], v)
+                ok, got = self._call(out, 'sequence:is_in_polygon', M.is_in_polygon, objs[o], pts[c], ncaps=v)
+                if ok:
+                    out.count('same_object_requeries')
+                    if o in mask_changed:
+                        out.count('requery_after_mask_change')
+                    self._cmp_bool(out, 'polygon:sequence', got, st, shown[c], ncaps=v, use=masks[o], object=o,
+                                   history=hist[-8:])
+                changed += self._changed(out, last_poly.get((o, c)), st)
+                last_poly[(o, c)] = st
+            elif kind == 'window':
+                _, v, c = op
+                _, _, first, alt = refs[c].window(masks, v)
+                ok, res = self._call(out, 'sequence:is_in_window', M.is_in_window, pl, pts[c], ncaps=v)
+                if ok:
+                    out.count('same_object_requeries')
+                    if mask_changed:
+                        out.count('requery_after_mask_change')
+                    if last_poly:
+                        out.count('requery_window_after_polygon_on_member')
+                    self._cmp_window(out, 'window:sequence', res, first, alt, shown[c], ncaps=v, masks=list(masks),
+                                     history=hist[-8:])
+                if c in last_win and bool((last_win[c] != first).any()):
+                    out.count('requery_reference_answer_changed')
+                    changed += 1
+                last_win[c] = first
+            elif kind == 'set':
+                _, o, idx, add, adbl, aneg = op
+                x, cm, _ = polys[o]
+                exp, amb = R.use_caps_ref(x, cm, idx, old_mask=masks[o], add=add, allow_doubles=adbl,
+                                          allow_neg_doubles=aneg)
+                if amb:
+                    out.undecide(1)
+                    break
+                ok, ret = self._call(out, 'sequence:set_use_caps', M.set_use_caps, objs[o], list(idx), add=add,
+                                     allow_doubles=adbl, allow_neg_doubles=aneg)
+                if not ok:
+                    break
+                out.expect(int(ret) == exp and int(objs[o].use_caps) == exp, 'use_caps:sequence',
+                           'use_caps=%s / attribute %s, expected %s' % (bin(int(ret)), bin(int(objs[o].use_caps)), bin(exp)),
+                           history=hist[-8:], cm=case['polys'][o]['cm'])
+                masks[o] = int(objs[o].use_caps)
+                mask_changed.add(o)
+            elif kind == 'assign':
+                _, o, use = op
+                objs[o].use_caps = int(use)
+                masks[o] = int(use)
+                mask_changed.add(o)
+            elif kind == 'touch':
+                _, o, what = op
+                try:
+                    if what == 'cmminf':
+                        objs[o].cmminf()
+                    elif what == 'copy':
+                        objs[o].copy()
+                    else:
+                        objs[o].ncaps
+                except Exception:
+                    out.count('touch_raised')
+            elif kind == 'copyq':
+                _, o, v, c = op
+                ok, cp = self._call(out, 'sequence:copy', objs[o].copy)
+                if ok:
+                    st, _ = refs[c].polygon(o, masks[o], v)
+                    ok, got = self._call(out, 'sequence:is_in_polygon(copy)', M.is_in_polygon, cp, pts[c], ncaps=v)
+                    if ok:
+                        self._cmp_bool(out, 'polygon:sequence:copy', got, st, shown[c], ncaps=v, use=masks[o],
+                                       object=o, history=hist[-8:])
+        out.nontrivial = changed >= 1
+        out.info.update(n_objects=len(objs), n_ops=len(case['ops']), reference_answer_changes=changed)
 
     # .............................................................. set_use_caps
     def _run_use_caps(self, case, out):
@@ -989,6 +1245,8 @@ class C12(Check):
         if 'polys' in c:
             c['n_polys'] = len(c['polys'])
             c['polys'] = c['polys'][:2]
+        if 'ops' in c:
+            c['ops'] = c['ops'][:8]
         if 'exact' in c:
             c['exact'] = c['exact'][:4]
         return c
